@@ -51,6 +51,9 @@ func init() {
 				add("hashmap-s1-empty-key-k3", merge(base, p("k", 3, "ops", opPut|opDelete, "index", 3, "shards", 1, "vlens", 2, "emptykey", 1)))
 				// DataFileSize from 1 byte up: smaller than any record, exactly one record, one byte more ...
 				add("hashmap-s1-tiny-dfs-k2", merge(base, p("k", 2, "ops", opPut|opDelete|opMerge, "index", 3, "shards", 1, "vlens", 2, "dfs_lo", 1, "dfs_hi", 30)))
+				// REAL geometry (32 KiB blocks, nothing scaled): value lengths in a window around the one that ends the
+				// record on the first block boundary; long values are concrete filler with 3 symbolic bytes
+				js = append(js, JobSpec{Name: "real-geometry-block-boundary-k2", Harness: "root", Func: "verifHarnessC01", Params: merge(base, p("k", 2, "ops", opPut|opDelete, "index", 3, "shards", 1, "vlens", 1, "vwin_lo", 32768-30, "vwin_hi", 32768-10, "sparse", 1, "dfs_lo", 0, "dfs_hi", 0)), Scale: map[string]string{}, ConcCap: 256})
 				// every IndexType x ShardNum{1,3} x FileIOType x SyncStrategy combination as a choice point
 				add("cfgsweep-k2", merge(base, p("cfgsweep", 2, "k", 2, "ops", opPut|opDelete|opMerge, "vlens", 1, "dfs_lo", 40, "dfs_hi", 40)))
 				add("hashmap-s3-keyfamily2-k3", merge(base, p("ckeys", 2, "k", 3, "ops", opPut|opDelete, "index", 3, "shards", 3, "vlens", 1)))
@@ -66,6 +69,8 @@ func init() {
 				add("hashmap-s2-pool3-k4", merge(base, p("k", 4, "pool", 3, "klen", 2, "ops", opPut|opDelete, "index", 3, "shards", 2)))
 				add("hashmap-s1-bigvals-k3", merge(base, p("k", 3, "vlens", 5, "vbig2", 50, "vbig3", 75, "ops", opPut|opDelete, "index", 3, "shards", 1)))
 				add("cfgsweep-k3", merge(base, p("cfgsweep", 1, "k", 3, "ops", opPut|opDelete|opBatch|opMerge|opSync, "bmax", 2, "vlens", 2, "dfs_lo", 60, "dfs_hi", 100)))
+				js = append(js, JobSpec{Name: "real-geometry-block-boundary-k3-btree", Harness: "root", Func: "verifHarnessC01", Params: merge(base, p("k", 3, "ops", opPut|opDelete, "index", 1, "shards", 2, "vlens", 1, "vwin_lo", 32768-30, "vwin_hi", 32768-8, "sparse", 1, "dfs_lo", 0, "dfs_hi", 0)), Scale: map[string]string{}, ConcCap: 256})
+				js = append(js, JobSpec{Name: "real-geometry-two-blocks-mmap-k2", Harness: "root", Func: "verifHarnessC01", Params: merge(base, p("k", 2, "ops", opPut|opDelete, "index", 3, "shards", 1, "io", 1, "vlens", 1, "vwin_lo", 65536-40, "vwin_hi", 65536-12, "sparse", 1, "dfs_lo", 0, "dfs_hi", 0)), Scale: map[string]string{"fio/mmap.go:blockSize": "262144"}, ConcCap: 256, PageSize: 4096})
 			}
 			js = append(js, JobSpec{Name: "witness", Harness: "root", Func: "verifHarnessC01", Params: merge(base, p("k", 1, "ops", opPut, "index", 3, "shards", 1, "witness", 1)), Scale: scaleDF(32), Witness: true})
 			return js
@@ -161,6 +166,7 @@ func init() {
 				add("std-to-mmap-k3-k1", merge(base, p("k", 3, "k2", 1, "ops", opPut|opDelete|opBatch, "bmax", 1, "index", 3, "shards", 1, "io", 0, "r_io", 2)))
 				add("merge-k3-k2", merge(base, p("k", 3, "k2", 2, "ops", opPut|opDelete|opMerge|opBatch, "bmax", 1, "vlens", 2, "index", 1, "shards", 1, "dfs_lo", 60, "dfs_hi", 150)))
 				add("cfgsweep-k2-k1", merge(base, p("cfgsweep", 1, "k", 2, "k2", 1, "ops", opPut|opDelete|opBatch, "bmax", 1, "vlens", 1, "r_index", 2, "r_shards", 2, "dfs_lo", 40, "dfs_hi", 40)))
+				js = append(js, JobSpec{Name: "real-geometry-block-boundary-restart-k2-k1", Harness: "root", Func: "verifHarnessC02", Params: merge(base, p("k", 2, "k2", 1, "ops", opPut|opDelete, "index", 3, "shards", 1, "vlens", 1, "vwin_lo", 32768-30, "vwin_hi", 32768-8, "sparse", 1, "r_io", 2)), Scale: map[string]string{"fio/mmap.go:blockSize": "262144"}, ConcCap: 256, PageSize: 4096})
 			}
 			js = append(js, JobSpec{Name: "witness", Harness: "root", Func: "verifHarnessC02", Params: merge(base, p("k", 1, "k2", 1, "ops", opPut, "index", 3, "shards", 1, "witness", 1)), Scale: scaleDF(32), Witness: true})
 			return js
